@@ -23,14 +23,176 @@ pub fn profile() -> Profile {
     }
 }
 
+// ------------------------------------------------------------------------------------------------
+// phase "rotation-race": the automatic switch of a full blob meets a manual lifecycle call
+// ------------------------------------------------------------------------------------------------
+
+/// The model-based histories cannot use the automatic rotation (its 200 ms debounce makes the moment of the switch a
+/// matter of timing). This phase does, with an oracle that does not depend on who wins: the active blob is aged past
+/// the debounce and filled to its record limit (the write that fills it requests a rotation from the worker), and a manual
+/// call follows at once, without waiting for idle. Whatever the order of the two, at idle next_blob_id is one above the
+/// greatest blob id in the directory (ids are handed out for blobs that come to exist), blobs_count equals the number of blob
+/// files, records_count equals the number of acknowledged records, and a restart reports the same three values.
+#[derive(Clone, Debug, serde::Serialize, serde::Deserialize)]
+pub struct RaceCase {
+    pub cfg: crate::sut::Cfg,
+    /// closed blobs that exist before the race
+    pub pre_blobs: u8,
+    /// 0 try_close_active_blob, 1 close then create, 2 try_restore (refused: an active blob exists), 3 force_update(always),
+    /// 4 close_active_blob_in_background, 5 a delete of a stored key
+    pub follow: u8,
+    pub rounds: u8,
+}
+
+fn race_cases(thorough: bool) -> Vec<RaceCase> {
+    let mut v = vec![];
+    for follow in 0..6u8 {
+        for rt_workers in [0usize, 2] {
+            for limit in if thorough { vec![2u64, 3, 5] } else { vec![3u64] } {
+                for pre_blobs in if thorough { vec![0u8, 1, 3] } else { vec![0u8, 2] } {
+                    v.push(RaceCase { cfg: crate::sut::Cfg { keylen: 8, rt_workers, allow_dup: true, max_data_in_blob: limit, defer_ms: (2, 5), ..crate::sut::Cfg::default() }, pre_blobs, follow, rounds: if thorough { 3 } else { 2 } });
+                }
+            }
+        }
+    }
+    v
+}
+
+pub fn run_race(c: &RaceCase, dir: &std::path::Path, _findings: &crate::findings::Findings) -> Result<CaseOut, crate::interp::Failure> {
+    use crate::interp::Failure;
+    use crate::sut::{self, key_bytes, wait_quiet};
+    use std::time::Duration;
+    let fail = |clause: &str, detail: String, step: usize| -> Result<CaseOut, Failure> { Err(Failure { clause: clause.into(), detail, step, op: format!("follow {}", c.follow) }) };
+    let rt = c.cfg.runtime();
+    let _ = std::fs::remove_dir_all(dir);
+    let res = rt.block_on(async {
+        let s = match sut::open(&c.cfg, dir, false).await {
+            Ok(s) => s,
+            Err(e) => return fail("init/err", format!("{:#}", e), 0),
+        };
+        let keylen = c.cfg.keylen;
+        let limit = c.cfg.max_data_in_blob as usize;
+        let mut acked = 0usize;
+        let mut stats = crate::interp::Stats::default();
+        let mut put = |n: usize| (key_bytes(keylen, (n % 200) as u8), bytes::Bytes::from(vec![b'r'; 16]), 1 + n as u64);
+        for _ in 0..c.pre_blobs {
+            let (k, v, t) = put(acked);
+            if let Err(e) = s.write(&k, v, t, None).await {
+                return fail("write/err", format!("{:#}", e), acked);
+            }
+            acked += 1;
+            let _ = s.try_close_active().await;
+            let _ = s.try_create_active().await;
+        }
+        for round in 0..c.rounds as usize {
+            let _ = wait_quiet(s.as_ref(), true, Duration::from_secs(60)).await;
+            if !s.has_active().await {
+                let _ = s.try_create_active().await;
+            }
+            let have = s.records_count_in_active().await.unwrap_or(0);
+            // fill up to one below the limit, age the blob, then the write that fills it
+            for _ in have..limit.saturating_sub(1) {
+                let (k, v, t) = put(acked);
+                if let Err(e) = s.write(&k, v, t, None).await {
+                    return fail("write/err", format!("{:#}", e), acked);
+                }
+                acked += 1;
+            }
+            tokio::time::sleep(Duration::from_millis(230)).await;
+            let (k, v, t) = put(acked);
+            if let Err(e) = s.write(&k, v, t, None).await {
+                return fail("write/err", format!("{:#}", e), acked);
+            }
+            acked += 1;
+            stats.writes = acked as u64;
+            // ... and at once:
+            match c.follow {
+                0 => {
+                    let _ = s.try_close_active().await;
+                }
+                1 => {
+                    let _ = s.try_close_active().await;
+                    let _ = s.try_create_active().await;
+                }
+                2 => {
+                    let _ = s.try_restore_active().await;
+                }
+                3 => s.force_update(crate::sut::Pred::Always).await,
+                4 => s.close_active_bg().await,
+                _ => {
+                    if let Ok(n) = s.delete(&key_bytes(keylen, 0), 1_000_000 + round as u64, None, true).await {
+                        acked += n as usize;
+                    }
+                }
+            }
+            if wait_quiet(s.as_ref(), true, Duration::from_secs(60)).await.is_err() {
+                return fail("bg/stall", "no idle state 60 s after the race".into(), round);
+            }
+            let files: Vec<usize> = sut::list_files(dir).into_iter().filter(|x| !x.1).map(|x| x.0).collect();
+            let implied = files.iter().max().map_or(0, |m| m + 1);
+            stats.queries += 3;
+            if s.next_blob_id() != implied {
+                return fail("next_blob_id/not-implied-by-files", format!("round {}: next_blob_id = {} but the blob files are {:?} (an id was taken for a blob that never came to exist)", round, s.next_blob_id(), files), round);
+            }
+            let bc = s.blobs_count().await;
+            if bc != files.len() {
+                return fail("blobs_count/mismatch", format!("round {}: blobs_count = {} but {} blob files exist {:?}", round, bc, files.len(), files), round);
+            }
+            let rc = s.records_count().await;
+            if rc != acked {
+                return fail("records_count/mismatch", format!("round {}: records_count = {} but {} records were acknowledged", round, rc, acked), round);
+            }
+        }
+        let (n0, b0, r0) = (s.next_blob_id(), s.blobs_count().await, s.records_count().await);
+        if let Err(e) = s.close().await {
+            return fail("close/err", format!("{:#}", e), 0);
+        }
+        let s = match sut::open(&c.cfg, dir, false).await {
+            Ok(s) => s,
+            Err(e) => return fail("init/err", format!("after the races: {:#}", e), 0),
+        };
+        let (n1, b1, r1) = (s.next_blob_id(), s.blobs_count().await, s.records_count().await);
+        let _ = s.close().await;
+        // (an empty active blob left by the last round is dropped by the restart, with it its id may be re-used: compare
+        // what the files imply, not the raw numbers, when the last blob was empty)
+        if r1 != r0 {
+            return fail("records_count/mismatch", format!("before the restart {} records, after it {}", r0, r1), 0);
+        }
+        if n1 > n0 || b1 > b0 {
+            return fail("next_blob_id/changed-by-restart", format!("before the restart next_blob_id {} / blobs_count {}, after it {} / {}", n0, b0, n1, b1), 0);
+        }
+        let mut labels = BTreeSet::new();
+        labels.insert(format!("race_follow_{}", c.follow));
+        Ok(CaseOut { nontrivial: true, labels, stats, known_hits: Default::default(), weight: 1 })
+    });
+    drop(rt);
+    res
+}
+
+fn sample_race(c: &RaceCase) -> serde_json::Value {
+    serde_json::json!({"rt_workers": c.cfg.rt_workers, "record_limit": c.cfg.max_data_in_blob, "closed_blobs_before": c.pre_blobs, "call_right_after_the_filling_write(0 close,1 close+create,2 restore,3 force_update,4 bg close,5 delete)": c.follow, "rounds": c.rounds})
+}
+
 pub fn run(ctx: &RunCtx) -> PropResult {
     let mut report = Report::default();
     let p = profile();
     run_profile(ctx, &p, ctx.tier.pick(6000, 100_000), &mut report);
+    let findings = ctx.findings.clone();
+    let runf = |c: &RaceCase, d: &std::path::Path| run_race(c, d, &findings);
+    run_enumerated(ctx, "rotation-race", race_cases(ctx.tier == Tier::Thorough), runf, &sample_race, &mut report);
     PropResult {
         report,
         level: "exploration",
-        rule: "proptest histories with deletes into closed blobs, manual close/restore/create of the active blob, forced switches, restarts, and crash-restarts in which the harness damages blob files so that init quarantines them (cut inside a record header / body / the blob header, zeroed magic, flipped header byte); after EVERY step records_count, records_count_detailed (ids and counts of closed blobs, count of the active one), records_count_in_active_blob, blobs_count, next_blob_id, corrupted_blobs_count compared with the model, blob files on disk checked against the ids the model handed out; at every wait-idle point disk_used compared with the directory listing. Non-trivial = the history contains a successful restore, a delete into a closed blob or a quarantine. distinct = FNV hash of the serialized case.".into(),
+        rule: "proptest histories with deletes into closed blobs, manual close/restore/create of the active blob, forced switches, restarts, and crash-restarts in which the harness damages blob files so that init quarantines them (cut inside a record header / body / the blob header, zeroed magic, flipped header byte); after EVERY step records_count, records_count_detailed (ids and counts of closed blobs, count of the active one), records_count_in_active_blob, blobs_count, next_blob_id, corrupted_blobs_count compared with the model, blob files on disk checked against the ids the model handed out; at every wait-idle point disk_used compared with the directory listing. An enumerated phase (rotation-race) uses the automatic rotation the histories must avoid: the active blob is aged past the 200 ms debounce and filled to its record limit (the filling write asks the worker for a switch) and a manual call follows at once (close, close+create, restore, forced update, background close, delete), on both runtimes; whoever wins, at idle next_blob_id is one above the greatest blob id in the directory, blobs_count equals the number of blob files and records_count the number of acknowledged records, and a restart changes none of them upwards. Non-trivial = the history contains a successful restore, a delete into a closed blob or a quarantine. distinct = FNV hash of the serialized case.".into(),
         assumptions: common_assumptions(),
+    }
+}
+
+pub fn replay_other(phase: &str, case: &serde_json::Value, dir: &std::path::Path, findings: &crate::findings::Findings) -> Option<Result<CaseOut, crate::interp::Failure>> {
+    if phase == "rotation-race" {
+        let runf = |c: &RaceCase, d: &std::path::Path| run_race(c, d, findings);
+        serde_json::from_value::<RaceCase>(case.clone()).ok().map(|c| guarded(&c, dir, &runf))
+    } else {
+        None
     }
 }
